@@ -28,9 +28,12 @@ def atom(rng):
         return rng.choice(NAMES)
     if r < 0.7:
         return rng.choice(['2', '3.5', '0.25', '10', '1e3'])
-    if r < 0.85:
+    if r < 0.82:
         return '%s*%s' % (rng.choice(NAMES), rng.choice(NAMES + ['2', '0.5']))
-    return '%s/%s' % (rng.choice(NAMES), rng.choice(NAMES + ['4']))
+    if r < 0.94:
+        return '%s/%s' % (rng.choice(NAMES), rng.choice(NAMES + ['4']))
+    # a number in front: coefficient of a product, numerator of a quotient
+    return '%s%s%s' % (rng.choice(['2', '0.5', '1', '3', '1e2']), rng.choice(['*', '/', '/']), rng.choice(NAMES + ['4']))
 
 
 MAY_REJECT_FORMS = ['--{b}', '+-{b}', '-+{b}', '++{b}', '- -{b}']
